@@ -24,7 +24,7 @@ import (
 )
 
 var (
-	mustWait  = 5 * time.Second        // "must have returned by now": only exhausted by a real hang
+	mustWait  = 5 * time.Second       // "must have returned by now": only exhausted by a real hang
 	probeWait = 50 * time.Millisecond // probe of a key after a failed Store; running out proves nothing (see spec)
 )
 
